@@ -9,6 +9,7 @@ require (
 
 require (
 	github.com/cenkalti/log v1.0.0 // indirect
+	github.com/google/btree v1.1.3 // indirect
 	github.com/hashicorp/errwrap v1.1.0 // indirect
 	github.com/hashicorp/go-multierror v1.1.1 // indirect
 	github.com/juju/ratelimit v1.0.2 // indirect
